@@ -710,7 +710,7 @@ bool ICUTranscoder::canTranscodeTo(const unsigned int toCheck)
     unsigned int    srcCount = 1;
     if (toCheck & 0xFFFF0000)
     {
-        srcBuf[0] = UChar((toCheck >> 10) + 0xD800);
+        srcBuf[0] = UChar(((toCheck - 0x10000) >> 10) + 0xD800);
         srcBuf[1] = UChar(toCheck & 0x3FF) + 0xDC00;
         srcCount++;
     }
